@@ -110,13 +110,13 @@ NEEDS.update({
 # wave 5: candidates delivered to /tmp/mut5/out/<Cxx>/ (one per property), imported as <Cxx>-5
 WAVE5 = {"C05-5": "C05", "C08-5": "C08", "C09-5": "C09", "C11-5": "C11", "C12-5": "C12", "C15-5": "C15", "C16-5": "C16", "C17-5": "C17", "C18-5": "C18", "C20-5": "C20"}
 NEEDS.update({
-    "C05-5": "see README.md",
+    "C05-5": "UDP: an unmodified SERVER-emitted data/ack datagram of a session that is already closed and cleaned (>= 5 s), never received by the server before, reflected to the server from an address without a live session: the direction check was removed from the underlay (Session.input guards only registered sessions); the unknown-session branch answers with a closeSessionRequest to a party that knows no credential",
     "C08-5": "non-monotonic server clock: a per-user decryptor used at T1, then the clock stepped BACK by two or more key slots (>= ~4 min): the new validity test now.Before(slotEnd) has no lower bound, the held keys of the later slot are reused (clients within 60 s refused, a key 10 min away accepted)",
-    "C09-5": "see README.md",
+    "C09-5": "a TCP direction whose nonce has its last 8 bytes within N encryptions of 0xffffffffffffffff (chosen by a third-party peer, or a 20-byte fixed prefix + hint): the uint64 fast path loses the carry into byte 15 (X||ff..ff + 1 = X||00..01); mieru<->mieru self-consistent",
     "C11-5": "credentials configured, user/pass selected, an UNREGISTERED (or empty) user name with a zero-length password: the lookup returns (\"\", false), found is dropped, ConstantTimeCompare(\"\", \"\") == 1 (two cooperating sites)",
     "C12-5": "two-step history inside one UDP association: a datagram to a PUBLIC IP literal, then one whose destination is a local NAME (localhost, LocalHost., 127.0.0.1 written as a name): the per-association request object keeps the stale public IP, the rule judges that, the relay resolves the name",
     "C15-5": "a peer's closeSessionRequest processed while writes on the underlay fail (simultaneous close of a multiplexed underlay: client Mux.Close under way and the server closing its sessions 300 ms later; or abrupt connection loss): the new sendCloseSessionResponse returns on the write error without releasing oLock; closeWithError blocks for ever",
-    "C16-5": "see README.md",
+    "C16-5": "UDP server with low entropy enabled, client A sending low-entropy data first, then a DIFFERENT client B with low entropy off: the new per-underlay peerUseLowEntropy mark lives on the one PacketUnderlay that serves every client, B receives low-entropy data segments",
     "C17-5": "padding polarity 1, a body that is not a multiple of the mode's bytes per chunk, and a cleared bit in a mask-selected but unused position of the partial last chunk: the all-ones accumulator uses chunk|chunkMask instead of chunk|dataMask; non-canonical strings accepted (round trip unaffected)",
     "C18-5": "one packet-over-stream association that sends a datagram to an IP literal and later one addressed by domain name: reused datagram struct keeps the previous IP (ReadFromSocks5 never clears it), payload goes to <previous IP>:<new port>",
     "C20-5": "a stored server config whose users are NOT sorted by name (SetConfig RPC, hand-written file), then a patch naming an existing user that sits after a greater name: the single-pass sorted merge misses the old record, the user is stored twice and the stale record wins",
